@@ -18,11 +18,11 @@ import (
 // unchecked (DESIGN.md Appendix B says which mutant prompted which rule).
 
 func init() {
-	Register(&Rule{ID: "NODEURLPREFIX", Props: []string{"C03", "C18"}, Min: 3,
+	Register(&Rule{ID: "NODEURLPREFIX", Props: []string{"C03", "C18", "C05"}, Min: 3,
 		Doc: "every store's NodeURLPrefix identifies the container its Load/Store address: its result depends on the receiver's identity, or on every string-typed location field " +
 			"that Load/Store read (S3: BucketName and Prefix; file: the base path) — directly or through the value the constructor stored — so two stores that address different objects never share cache keys.",
 		Run: runNODEURLPREFIX})
-	Register(&Rule{ID: "DECODEFRESH", Props: []string{"C05"}, Min: 1,
+	Register(&Rule{ID: "DECODEFRESH", Props: []string{"C05", "C08"}, Min: 1,
 		Doc: "every decoded key/value gets its own freshly allocated target: a reflect.New whose result is stored into a slice element inside a loop is itself executed inside that loop " +
 			"(a hoisted target makes all entries of a node alias or inherit leftovers of the previous entry).",
 		Run: runDECODEFRESH})
@@ -1824,7 +1824,7 @@ func runGROWCHECK(c *Ctx) {
 				continue
 			}
 			for _, a := range ci.Common().Args {
-				if sl, ok := a.Type().Underlying().(*types.Slice); ok && ir.IsNamed(sl.Elem(), "pathEntry") {
+				if sl, ok := a.Type().Underlying().(*types.Slice); ok && ir.IsNamed(sl.Elem(), pathNames(c.P).typ) {
 					installs = append(installs, inst{ci, a})
 				}
 			}
@@ -1870,7 +1870,7 @@ func runGROWCHECK(c *Ctx) {
 			c.Violation(ins, P.InstrPos(call), "growth test not preceded by installing the new root", "the test would look at the tree as it was before this insert")
 			continue
 		}
-		want := "*" + ir.Sym(pathArg) + "[0].node"
+		want := "*" + ir.Sym(pathArg) + "[0]." + nodeFieldName
 		_, isRoot := rootLoad(recv)
 		pos := P.InstrPos(call)
 		switch {
